@@ -4,7 +4,7 @@
    every construction path of the Go evaluator reaches the representation of
    that canonical form is what the correspondence run checks (families of
    construction paths per denotation). *)
-From Arrai Require Import Base.Val Spec.SetAlg Eval.Interp Proofs.ValOrder Proofs.SetAlgP Proofs.KeyedP Proofs.CanonP Proofs.WfP.
+From Arrai Require Import Base.Val Spec.SetAlg Eval.Interp Proofs.ValOrder Proofs.SetAlgP Proofs.KeyedP Proofs.CanonP Proofs.WfP Rep.DictRep Proofs.DictRepP.
 
 (* a = b holds exactly when both denote the same value *)
 Theorem C02_equality_is_identity_of_denotations :
@@ -59,3 +59,22 @@ Theorem C02_results_with_same_members_are_equal :
     (forall x, In x a <-> In x b) -> VSet a = VSet b /\ veqb (VSet a) (VSet b) = true.
 Proof. exact results_extensional. Qed.
 Print Assumptions C02_results_with_same_members_are_equal.
+
+(* ---- the Go dictionary representation (Rep/DictRep.v): representation-wise equality (Dict.equalDict, slot by slot)
+   is extensional equality, for all dictionaries meeting the representation invariant - which every history of
+   operations preserves (C01_dict_histories_compute_the_set_operations) ---- *)
+Theorem C02_dict_equality_is_extensional :
+  forall d d2, dict_ok d = true -> dict_ok d2 = true ->
+    (dict_equal d d2 = true <-> forall y, In y (dict_enum d) <-> In y (dict_enum d2)).
+Proof. exact dict_equal_extensional. Qed.
+Print Assumptions C02_dict_equality_is_extensional.
+
+(* the invariant is what makes it so: a several-values slot left with ONE value denotes the same set as the bare
+   value but is not equal to it (the defect pattern of a Without that forgets to collapse the slot) *)
+Theorem C02_dict_equality_without_invariant_refuted :
+  exists d d2, (forall y, In y (dict_enum d) <-> In y (dict_enum d2)) /\ dict_equal d d2 = false /\ dict_ok d = false.
+Proof.
+  exists [(vint 1, Multi [vint 2])], [(vint 1, One (vint 2))].
+  destruct dict_equal_needs_invariant as (E & F & G). split; [intros y; cbv zeta in E; rewrite E; tauto | split; assumption].
+Qed.
+Print Assumptions C02_dict_equality_without_invariant_refuted.
